@@ -466,7 +466,8 @@ def rule_C10(ctx):
                detail="operation on a static string can write through memory: %s" % "; ".join("%s in %s (line %d)" % (c, f, l) for f, c, l in writes[:3]))
         kinds_out = {t.kind for cls, t in res if not (isinstance(cls, str) and cls.startswith("unwind"))}
         if r in ("repr::Repr::pop", "repr::Repr::truncate", "LeanString::clear", "repr::Repr::shrink_to"):
-            ctx.ob("C10-static-stays", r, "exit-kind", kinds_out <= {"S", "I"}, how="exits with kind in %s" % sorted(kinds_out), detail="static string leaves %s as %s" % (r, sorted(kinds_out)))
+            # shortening only changes the borrowed length: the handle keeps pointing at the caller's bytes
+            ctx.ob("C10-static-stays", r, "exit-kind", kinds_out <= {"S"}, how="exits with kind in %s" % sorted(kinds_out), detail="static string leaves %s as %s: it stops borrowing the caller's text although nothing was written" % (r, sorted(kinds_out)))
     # mutable pointers into field .0 of a Repr only under a heap guard
     n = 0
     for path, body in F.bodies.items():
@@ -500,3 +501,24 @@ def rule_C10(ctx):
     # a borrowed handle is never viewed as a heap / inline buffer (it would be re-tagged, counted or
     # freed), never handed to a write-capable view, never written through its pointer
     ctx.take_ts(["R-contract.kind=", "R-contract.Modifiable", "R-contract.write"])
+
+
+def rule_empty_append(ctx, rule="C10-empty"):
+    """`push_str("")` (and `+= ""`, `extend([])`, `write!(s, "")`) leaves a borrowed static handle
+    borrowed: in Repr::push_str the call that makes the storage writable (reserve) is reached only when
+    the appended text is known not to be empty"""
+    F = ctx.F
+    b = F.bodies.get("repr::Repr::push_str")
+    ctx.need(rule, "repr::Repr::push_str", "anchor", b is not None, "Repr::push_str not found")
+    if not b:
+        return
+    n = 0
+    for st in inlined_sites(b, lambda nm: nm in ("repr::Repr::reserve", "repr::Repr::ensure_modifiable")):
+        n += 1
+        gs = st.guards()
+        nonempty = any((g[0] == "pred" and g[1] in ("core::str::<impl str>::is_empty",) and g[3] is False and g[2] == "p2") or
+                       (g[0] == "cmp" and g[1] == "core::str::<impl str>::len(p2)" and g[2] is not None and g[2] >= 1) or
+                       (g[0] == "ne" and g[1] == "core::str::<impl str>::len(p2)" and g[2] == 0) for g in gs)
+        ctx.ob(rule, b.path, "reserve-only-for-nonempty-text:" + st.label(), nonempty, line=st.line, how="reserve behind !string.is_empty()",
+               detail="push_str reaches %s for an empty text too: appending nothing copies a borrowed static text to the heap / inline storage" % st.name)
+    ctx.need(rule, b.path, "reserve-site", n >= 1, "push_str has no reserve call", how="%d site(s)" % n)
